@@ -104,7 +104,7 @@ def c09(tier):
                                 "closure classes unusable: %s" % sp["infer"][:3])
     res.extra["cover_sizes"] = {k: len(v) for k, v in covers.items()}
     if tier == "quick":
-        decls = family_F("i8", 2, 2, 2) + family_F("i64", 2, 1, 2) + family_F("u16", 1, 2, 1)
+        decls = family_F("i8", 2, 2, 2) + family_F("i64", 2, 1, 2) + family_F("u16", 1, 2, 1) + enums.family_L("i8") + enums.family_M("i8", 2)
         bounds = dict(x1_depth=2, x2_extra=1, x2_cap=5, range_x1_depth=1, range_x2_extra=1)
         kmax = 2
     else:
@@ -228,6 +228,20 @@ def c10(tier):
         for f in catalogue.STRUCT_NAMED:
             cfg = Config([(f, {"struct_name": "ZzStruct"})])
             cases.append(("struct_name", "%s/%s" % (r, "gapless" if g else "holes"), cfg, enum_src(r, vals, cfg.attr_lines())))
+        # struct_name of one iterator feature next to the other one (default / custom), and used from user code
+        for ip, np_ in (({"struct_name": "ZzI"}, {}), ({}, {"struct_name": "ZzN"}), ({"struct_name": "ZzI"}, {"struct_name": "ZzN"}),
+                        ({"struct_name": "ZzI", "name": "zz_iter"}, {"struct_name": "ZzN", "name": "zz_names"})):
+            for extra_f in ([], ["range"]):
+                cfg = Config([("iter", ip), ("names", np_)] + extra_f)
+                use = "fn _use(_: Option<%s>, _: Option<%s>) {}\n" % (ip.get("struct_name", "EIter"), np_.get("struct_name", "ENames"))
+                cases.append(("struct_name-pair", "%s/%s" % (r, "gapless" if g else "holes"), cfg, enum_src(r, vals, cfg.attr_lines(), extra=use)))
+        # every pair of nameable features, both with custom names (no collision, dependants follow the names)
+        for f1, f2 in itertools.combinations(catalogue.NAMEABLE, 2):
+            feats = [(f1, {"name": "zz_a"}), (f2, {"name": "zz_b"})]
+            if "range" in (f1, f2) and "iter" not in (f1, f2):
+                feats = [("iter", {})] + feats
+            cfg = Config(feats)
+            cases.append(("name-pair", "%s/%s" % (r, "gapless" if g else "holes"), cfg, enum_src(r, vals, cfg.attr_lines())))
         # (c) sorted
         for inner in ("sorted", "sorted()", "sorted(name)", "sorted(value)", "sorted(name, value)", "sorted(value, name)"):
             src = enum_src(r, sorted(vals), [inner])
